@@ -10,7 +10,10 @@ plumbing and that the C16 theorems hinge on):
     `len(self.cut_adj[B])==1 and B not in self.singularities`) and the skeleton of the loop (what is removed);
   * `_build_cut_edges_tree`: `set(id_edges) - evisited` and the two adjacency insertions;
   * `run` / `_run_no_features` / `_run_with_features`: the sequence of steps (checked, fail closed);
-  * `_build_singularity_spanning_tree_no_features`: the empty-singularity guard and the border test.
+  * `_build_singularity_spanning_tree_no_features`: the empty-singularity guard and the border test;
+  * `_build_dual_tree_no_features` / `_build_dual_tree_with_features`: the relaxation comparison
+    `dist[iF2] > dist[iF] + d`, what it updates (`dist[iF2]`, `path[iF2] = e`), the settled test
+    `if fvisited[iF] : continue` and the push guard `if not fvisited[iF2]`.
 Loops are modelled by hand (Model.v) and tied by the correspondence. Recognised shapes only: anything else raises
 TranslationError (the tie to the source is then broken).
 """
@@ -433,6 +436,75 @@ Definition cut0_keep (visited : bool) : bool := negb visited.
 Definition mesh_has_border (n : Z) : bool := %s.   (* n = number of boundary vertices *)
 Definition no_flags_when_no_singularity : bool := true.  (* `if not self.singularities: return edge_flags` (empty) *)
 """ % border_cmp)
+
+    # ------------------------------------------------------------------ dual Dijkstra: relaxation test of both builders
+    for suffix in ("no_features", "with_features"):
+        fn = T.find_def(tree, CLS + "._build_dual_tree_" + suffix, REL)
+        parts.append(("_build_dual_tree_" + suffix, T.sha(src, fn)))
+        loops = [x for x in T.body_nodoc(fn) if isinstance(x, ast.While)]
+        if len(loops) != 1:
+            T.fail(REL, fn, "dual tree: not exactly one while loop")
+        w = loops[0]
+        # `iF = queue.get().x` ; `if fvisited[iF] : continue` ; `fvisited[iF] = True`
+        wb = w.body
+        if not (len(wb) == 4 and isinstance(wb[0], ast.Assign) and isinstance(wb[0].targets[0], ast.Name)
+                and isinstance(wb[1], ast.If) and isinstance(wb[2], ast.Assign) and isinstance(wb[3], ast.For)):
+            T.fail(REL, w, "dual tree loop is not pop / settled test / settle / for")
+        cur = wb[0].targets[0].id
+        t1 = wb[1]
+        if not (isinstance(t1.test, ast.Subscript) and isinstance(t1.test.value, ast.Name)
+                and isinstance(t1.test.slice, ast.Name) and t1.test.slice.id == cur and len(t1.body) == 1
+                and isinstance(t1.body[0], ast.Continue) and not t1.orelse):
+            T.fail(REL, t1, "settled test is not `if fvisited[iF] : continue`")
+        vis = t1.test.value.id
+        s2 = wb[2]
+        if not (isinstance(s2.targets[0], ast.Subscript) and isinstance(s2.targets[0].value, ast.Name)
+                and s2.targets[0].value.id == vis and isinstance(s2.targets[0].slice, ast.Name)
+                and s2.targets[0].slice.id == cur and isinstance(s2.value, ast.Constant) and s2.value.value is True):
+            T.fail(REL, s2, "the popped face is not marked visited")
+        relax = []
+        pushes = []
+        for node in ast.walk(wb[3]):
+            if isinstance(node, ast.If) and isinstance(node.test, ast.Compare) and len(node.test.ops) == 1 \
+                    and isinstance(node.test.left, ast.Subscript) and isinstance(node.test.left.value, ast.Name) \
+                    and node.test.left.value.id == "dist":
+                relax.append(node)
+            if isinstance(node, ast.If) and isinstance(node.test, ast.UnaryOp) and isinstance(node.test.op, ast.Not) \
+                    and isinstance(node.test.operand, ast.Subscript) and isinstance(node.test.operand.value, ast.Name) \
+                    and node.test.operand.value.id == vis:
+                pushes.append(node)
+        if len(relax) != 1 or len(pushes) != 1:
+            T.fail(REL, w, "dual tree: expected one relaxation test on dist[...] and one `if not fvisited[...]` push guard")
+        rx = relax[0]
+        c = rx.test
+        nb = c.left.slice.id if isinstance(c.left.slice, ast.Name) else T.fail(REL, c, "relaxation subject")
+        rhs = c.comparators[0]
+        ok = (isinstance(rhs, ast.BinOp) and isinstance(rhs.op, ast.Add) and isinstance(rhs.left, ast.Subscript)
+              and isinstance(rhs.left.value, ast.Name) and rhs.left.value.id == "dist"
+              and isinstance(rhs.left.slice, ast.Name) and rhs.left.slice.id == cur and isinstance(rhs.right, ast.Name))
+        if not ok or type(c.ops[0]) not in CMPZ:
+            T.fail(REL, c, "relaxation test is not `dist[iF2] <cmp> dist[iF] + d`")
+        dname = rhs.right.id
+        # body: dist[iF2] = dist[iF] + d ; path[iF2] = e
+        rb = rx.body
+        ok = (len(rb) == 2 and not rx.orelse
+              and isinstance(rb[0], ast.Assign) and isinstance(rb[0].targets[0], ast.Subscript)
+              and isinstance(rb[0].targets[0].value, ast.Name) and rb[0].targets[0].value.id == "dist"
+              and isinstance(rb[0].targets[0].slice, ast.Name) and rb[0].targets[0].slice.id == nb
+              and ast.dump(rb[0].value) == ast.dump(rhs)
+              and isinstance(rb[1], ast.Assign) and isinstance(rb[1].targets[0], ast.Subscript)
+              and isinstance(rb[1].targets[0].value, ast.Name) and rb[1].targets[0].value.id == "path"
+              and isinstance(rb[1].targets[0].slice, ast.Name) and rb[1].targets[0].slice.id == nb
+              and isinstance(rb[1].value, ast.Name))
+        if not ok:
+            T.fail(REL, rx, "relaxation does not update dist[iF2] = dist[iF] + d and path[iF2] = e")
+        pg = pushes[0]
+        if not (isinstance(pg.test.operand.slice, ast.Name) and pg.test.operand.slice.id == nb
+                and any(_call_name(x) == "queue.push" for x in pg.body)):
+            T.fail(REL, pg, "push guard is not `if not fvisited[iF2]: queue.push(...)`")
+        out.append("""(* ---- _build_dual_tree_%s : relax (old = dist[iF2], new = dist[iF] + %s); true = dist and path of iF2 are overwritten *)
+Definition relax_dual_%s (old new : Z) : bool := (old %s new).
+""" % (suffix, dname, suffix, CMPZ[type(c.ops[0])]))
 
     text = T.header("C16: index arithmetic, tests and plumbing of SingularityCutter (cutting.py)", parts)
     text += "From Coq Require Import ZArith List Bool.\nImport ListNotations.\nOpen Scope Z_scope.\n\n" + "\n".join(out)
